@@ -278,6 +278,10 @@ func corpusPrograms(v2 bool) []*Program {
 		// cyclic types, method sets, embedded interfaces, error, variadics
 		mkProg(v2, [3]string{"example.com/m/a", "", "package a\n\ntype Node struct {\n\tNext *Node\n\tKids map[string][]Node\n\tErr error\n}\n\nfunc (n *Node) Walk(f func(*Node) bool, more ...int) (ok bool) { panic(\"\") }\n\nfunc (n Node) Len() int { panic(\"\") }\n\ntype Walker interface {\n\tWalk(f func(*Node) bool, more ...int) (ok bool)\n}\n\ntype Both interface {\n\tWalker\n\tLen() int\n}\n\ntype Fn func(Both) Walker\n"}),
 	}
+	ps = append(ps,
+		// the same short name in two packages (the internal/versioned wrapper): a.Spec holds b.Spec, which holds references
+		mkProg(v2, [3]string{"example.com/m/b", "", "package b\n\ntype Spec struct {\n\tReplicas *int32\n\tLabels map[string]string\n}\n\ntype Plain struct{ N int }\n"},
+			[3]string{"example.com/m/a", "example.com/m/b", "package a\n\nimport b \"example.com/m/b\"\n\ntype Spec struct {\n\tPaused bool\n\tBase b.Spec\n}\n\ntype Plain struct {\n\tOK bool\n\tBase b.Plain\n}\n\ntype Wrapper struct {\n\tPaused bool\n\tBase b.Spec\n}\n"}))
 	if v2 {
 		// F2: a.User{F b.Foo[int]} is walked before b's declaration of Foo
 		ps = append(ps, mkProg(true, [3]string{"example.com/m/b", "", "package b\n\ntype Foo[T any] struct {\n\tV T\n\tP *T\n}\n"},
